@@ -200,8 +200,18 @@ func (x *Exec) Observe() *WorldObs {
 		}
 		st = storage.Init(p.Seam.inner)
 	}
-	h, err := st.History(x.Plan.Release)
-	if err != nil && err != driver.ErrReleaseNotFound {
+	var h []*release.Release
+	var err error
+	func() {
+		// reading the ledger goes through the real driver too: a panic there is Helm's, not the harness's
+		defer func() {
+			if r := recover(); r != nil {
+				w.HistErr = fmt.Sprintf("panic: %v\n%s", r, debug.Stack())
+			}
+		}()
+		h, err = st.History(x.Plan.Release)
+	}()
+	if w.HistErr == "" && err != nil && err != driver.ErrReleaseNotFound {
 		w.HistErr = err.Error()
 	}
 	for _, r := range h {
@@ -216,7 +226,15 @@ func (x *Exec) Observe() *WorldObs {
 		w.Ledger = append(w.Ledger, lr)
 	}
 	sort.SliceStable(w.Ledger, func(i, j int) bool { return w.Ledger[i].Rev < w.Ledger[j].Rev })
-	d, err := st.DeployedAll(x.Plan.Release)
+	var d []*release.Release
+	func() {
+		defer func() {
+			if r := recover(); r != nil && w.HistErr == "" {
+				w.HistErr = fmt.Sprintf("panic: %v\n%s", r, debug.Stack())
+			}
+		}()
+		d, err = st.DeployedAll(x.Plan.Release)
+	}()
 	if err == nil {
 		for _, r := range d {
 			w.DeployedAll = append(w.DeployedAll, r.Version)
@@ -732,6 +750,11 @@ func Execute(t *testing.T, plan *Plan, oracle func(x *Exec, so *StepObs), final 
 			}
 			x.noteOwned(so.Results)
 			so.After = x.Observe()
+			if strings.HasPrefix(so.After.HistErr, "panic:") && plan.Check != "C20" {
+				res.Infra = "reading the history panicked: " + trunc(so.After.HistErr, 1500)
+				x.Steps = append(x.Steps, so)
+				break
+			}
 			x.Sim.Event("STATE %s | objs=%d", so.After.Summary(), len(so.After.Cluster))
 			x.Steps = append(x.Steps, so)
 			if oracle != nil {
